@@ -95,7 +95,7 @@ func TestVerifC06(t *testing.T) {
 	k := vNewKit(t, "C06")
 	defer k.close()
 	nKnown := 0
-	runOne := func(c vSx) {
+	runCase := func(c vSx) {
 		if !c.isList() || len(c.l) != 2 || !c.l[0].isInt() {
 			k.record(c, vL(vZ(-1)), false)
 			return
@@ -150,6 +150,19 @@ func TestVerifC06(t *testing.T) {
 			}
 			k.fail(idx, c.size(), fl.oracle, fl.key, fl.detail)
 		}
+	}
+	// nothing the library does may crash the driver
+	runOne := func(c vSx) {
+		before := k.n
+		msg := vPanicText(func() { runCase(c) })
+		if msg == "" {
+			return
+		}
+		idx := before
+		if k.n == before {
+			idx = k.record(c, vPanicObs(), false)
+		}
+		k.fail(idx, c.size(), "no-panic", "", "panic while running the case: "+msg)
 	}
 	if k.replay != nil {
 		runOne(*k.replay)
